@@ -1357,6 +1357,9 @@ func randomKey(n int) string {
 
 func (s *Server) reset() {
 	s.aofsz = 0
+	// commands still waiting in the write buffer belong to the log that has
+	// just been emptied or cut; they must not end up in the new one
+	s.aofbuf = s.aofbuf[:0]
 	s.cols.Clear()
 	// hooks, channels and their indexes belong to the dataset as well
 	s.cmdFLUSHDB(&Message{Args: []string{"flushdb"}})
